@@ -178,7 +178,7 @@ def corpus_case(j):
 
 
 def build_cases(chk):
-    n = 1200 if chk.thorough else 220
+    n = 1200 if chk.thorough else 180
     cases = [corpus_case(j) for _, j in L.corpus_files("C28")]      # corpus first
     fixed = ["unresolvable", "nonunique-import", "nonunique-local", "unknown", "syntax-garbage", "syntax-drop"]
     for i, k in enumerate(fixed * 2):       # every kind is always present
@@ -222,7 +222,7 @@ def run(chk):
     for ch, o in zip(chunks, outs):
         for i, x in zip(ch, o):
             res[i] = x
-    vals, errs = core.coq_eval("C28", L.IMPORTS, [coq_case(c) for c in cases] + ["show_lcs %s %d" % (core.coq_str(t), len(t) + 1) for t in texts])
+    vals, errs = core.coq_eval("C28", L.IMPORTS, [coq_case(c) for c in cases] + ["show_lcs %s %d" % (L.coq_txt(t), len(t) + 1) for t in texts])
     lc_vals = vals[len(cases):]
     vals = vals[:len(cases)]
     disagreements, failures = [], []
